@@ -101,6 +101,7 @@ with calm_f (f : fplan) : bool :=
   match f with
   | FP _ nn None => negb nn
   | FP _ nn (Some v) => calm_v v && (negb nn || solid v)
+  | FTypename => true
   end.
 Definition calm (root : selset) : bool := calm_v (VObj root).
 
@@ -112,3 +113,17 @@ Definition excl_abandoned_promise (root : selset) : bool := negb (calm root).
     promise (the obligation the documentation of ResolvePromise puts on the idle handler) *)
 Definition fair (sigma : sched) : Prop :=
   forall n out, out <> [] -> exists id, In id (sigma n out) /\ In id (map fst out).
+
+(** ** Side effects.  Every event is a side effect on the state the resolvers share (the harness
+    resolvers increment a shared counter when they start and when their promise is fulfilled, and
+    read it first).  [effects_before keys j log]: how many side effects of root fields earlier
+    than k_j the log contains.  [ObservesPredecessors]: at the moment any event of root field k_j
+    happens, the shared state already contains EVERY side effect the earlier root fields will
+    ever have — the prefix of the log before the event has as many of them as the whole log. *)
+Definition earlier_than (keys : list bytes) (j : nat) (e : event) : bool :=
+  match ev_index keys e with Some i => Nat.ltb i j | None => false end.
+Definition effects_before (keys : list bytes) (j : nat) (log : list event) : nat :=
+  length (filter (earlier_than keys j) log).
+Definition ObservesPredecessors (keys : list bytes) (log : list event) : Prop :=
+  forall l1 e l2 j, log = l1 ++ e :: l2 -> ev_index keys e = Some j ->
+    effects_before keys j l1 = effects_before keys j log.
